@@ -517,6 +517,34 @@ pub fn verify_bucket_reads(b: &Bucket, mb: &MBucket) -> Option<String> {
             return Some(d);
         }
     }
+    // range scans from a sample of probes: included / excluded start, bounded and unbounded end
+    for (i, k) in probes.iter().enumerate() {
+        if i % 4 != 1 && probes.len() > 10 {
+            continue;
+        }
+        let hi = probes.get(i + 5).unwrap_or(k);
+        let checks: [(Bound<&[u8]>, Bound<&[u8]>); 4] = [
+            (Bound::Included(k.as_slice()), Bound::Unbounded),
+            (Bound::Excluded(k.as_slice()), Bound::Unbounded),
+            (Bound::Included(k.as_slice()), Bound::Excluded(hi.as_slice())),
+            (Bound::Unbounded, Bound::Included(k.as_slice())),
+        ];
+        for (lo, hi) in checks.iter() {
+            let got: Vec<Item> = b.range((*lo, *hi)).map(|d| item_of(&d)).collect();
+            let want = mb.items_in(*lo, *hi);
+            if got != want {
+                return Some(format!(
+                    "range({:?} {}, ..) yields {} items (first {}), model {} (first {})",
+                    matches!(lo, Bound::Included(_)),
+                    show(k),
+                    got.len(),
+                    got.first().map(|i| show(i.key())).unwrap_or("-".into()),
+                    want.len(),
+                    want.first().map(|i| show(i.key())).unwrap_or("-".into())
+                ));
+            }
+        }
+    }
     let kvs: Vec<Item> = b
         .kv_pairs()
         .map(|kv| Item::Kv(kv.key().to_vec(), kv.value().to_vec()))
@@ -1404,6 +1432,8 @@ pub fn classify_diff(d: &str) -> &'static str {
         "order"
     } else if d.contains("value of") {
         "value"
+    } else if d.contains("range(") {
+        "range"
     } else if d.contains("seek") {
         "seek"
     } else if d.contains("get(") || d.contains("get_kv(") {
